@@ -284,12 +284,12 @@ func main() {
 			os.RemoveAll(d)
 		}
 	}()
-	res.Bound = "backends memory, disk (temporary directory), encrypted, cache; writer over no / a shorter / a longer existing file with chunkings {all, 1, 3+rest, empty}; reader buffers 1, 2, 7, 4096; tree copy with fshelper.Copy, Copier.Do and StreamCopy into every backend; one injected failure at every counted I/O operation of destination and of source"
+	res.Bound = "backends memory, disk (temporary directory), encrypted, cache; writer over no / a shorter / a longer existing file with chunkings {all, 1, 3, 3 alternating Write / io.WriteString}; reader buffers 1, 2, 7, 4096; tree copy with fshelper.Copy, Copier.Do and StreamCopy into every backend; one injected failure at every counted I/O operation of destination and of source"
 	// (1) writers and readers
 	for _, be := range backends() {
 		for _, existing := range []int{-1, 3, 40} {
 			for _, n := range []int{0, 1, 10, 33} {
-				for _, chunk := range []int{0, 1, 3} {
+				for _, chunk := range []int{0, 1, 3, -3} {
 					res.Cases++
 					res.Nontriv++
 					id := fmt.Sprintf("%s existing=%d payload=%d chunk=%d", be.name, existing, n, chunk)
@@ -310,6 +310,12 @@ func main() {
 						if step == 0 {
 							step = len(data) + 1
 						}
+						// chunk -3: chunks of 3, alternately through Write and io.WriteString (which uses
+						// the writer's own WriteString when it has one): the order of arrival counts
+						viaString := false
+						if step < 0 {
+							step, viaString = -step, true
+						}
 						// every chunk goes through one reused buffer that is scribbled over
 						// right after the call, as io.Copy reuses its buffer: a writer must
 						// not keep a reference to what it was handed
@@ -320,7 +326,12 @@ func main() {
 								end = len(data)
 							}
 							k := copy(scratch, data[off:end])
-							if _, err := w.Write(scratch[:k]); err != nil {
+							if viaString && (off/step)%2 == 1 {
+								if _, err := io.WriteString(w, string(scratch[:k])); err != nil {
+									w.Close()
+									return err
+								}
+							} else if _, err := w.Write(scratch[:k]); err != nil {
 								w.Close()
 								return err
 							}
